@@ -133,6 +133,8 @@ func Harness_C10_onesided() {
 	st := r.Trips[0].StopTimes[0]
 	vr.Assert("C10.onesided.arrival", st.ArrivalTime == want)
 	vr.Assert("C10.onesided.departure", st.DepartureTime == want)
+	// no timepoint column: times are exact, filled in or not
+	vr.Assert("C10.onesided.timepoint_default", st.ExactTimes)
 }
 
 // Wheelchair-boarding inheritance: a child whose own value is unspecified
